@@ -5,7 +5,12 @@ from engine import site
 
 CONFIGS = ['prod']
 EXPLANATION = (
-    'Decided clauses (check-then-act atomicity, the mechanism of the property): A1 every insert into the keyspace table reachable from '
+    'SEM (abstract interpretation of the MIR, no code runs): KeyspaceGroup::get_or_create_keyspace is interpreted for a name the group does not hold, with a COMPETITOR running '
+    'the same function for the same name to completion (the real code, interpreted on the same tables) before the call, at each of its awaits, and at each gap between two of its '
+    'critical sections (a parallel runtime needs no await to interleave there; no competitor while the call holds a guard, it would block): for every placement both calls and a later '
+    'lookup must return the same keyspace actor, and the change-stamp cell registered for the name must be the one created with that actor. Two tasks, every interleaving of one of them at '
+    'that granularity; subsumes A1, A2 and A4, which are the fallback. '
+    'Structural clauses (check-then-act atomicity, the mechanism of the property): A1 every insert into the keyspace table reachable from '
     'get_or_create_keyspace is performed under a write guard under which an absence test on the same table was made, with no await '
     '(Yield) between the guard\'s acquisition and the insert, the insert lying only on the absent edge and the present edge returning '
     'the existing entry; A2 the keyspace\'s change-stamp cell is registered on the absent edge of the same test without an await after '
@@ -129,7 +134,11 @@ def check(ctx):
         return
     reach = [b for b in cg.reach([root], bound=4) if b.crate == 'datacake_eventual_consistency' and b.name.startswith(G)]
     n_group = n_ts = n_ret = 0
-    for body in reach:
+    # SEM: the first use of a keyspace interpreted with one competitor at every suspension point (every await, and every gap between
+    # two critical sections) of the creation path (group_abs); subsumes A1, A2 and A4, which are evaluated only when a construct is not modelled
+    import group_abs
+    sem = group_abs.check_group(ctx, facts, 'C18.SEM')
+    for body in ([] if sem else reach):
         flow = Flow(body)
         calls = list(body.calls())
         locks = {}
@@ -253,9 +262,10 @@ def check(ctx):
                         good = True
                 ctx.ob('C18.A2', key, good, site(body, it['cs']),
                        'the change-stamp cell is registered only by the task that created the keyspace' if good else why)
-    ctx.floor('C18.A1', 'keyspace-table inserts reachable from get_or_create_keyspace', n_group, 1)
-    ctx.floor('C18.A2', 'change-stamp cell inserts reachable from get_or_create_keyspace', n_ts, 1)
-    ctx.floor('C18.A4', 'returns of the function that inserts into the keyspace table', n_ret, 1)
+    if not sem:
+        ctx.floor('C18.A1', 'keyspace-table inserts reachable from get_or_create_keyspace', n_group, 1)
+        ctx.floor('C18.A2', 'change-stamp cell inserts reachable from get_or_create_keyspace', n_ts, 1)
+        ctx.floor('C18.A4', 'returns of the function that inserts into the keyspace table', n_ret, 1)
 
     # ---- A3 -------------------------------------------------------------------------
     allowed = {KG + '::load_states_from_storage'}
